@@ -195,7 +195,7 @@ void do_free(void *p, bool array, bool cstyle = false) {
         s->freed.insert(p);
         if (e.sut) std::memset(p, s->fill_freed, e.size);
         if (s->policy == HEAP_QUARANTINE && e.sut) { s->quarantine.push_back(e.aligned ? p : (char *)p - RZ); s->quarantined.insert(p); return; }
-        if (s->policy == HEAP_SHARED_LIFO && e.sut && !e.aligned && !e.cstyle && !(RZ && !rz_intact(p, e.size))) { s->spare.push_back(State::Spare{e.size, p}); return; }
+        if (s->policy == HEAP_SHARED_LIFO && e.sut && !e.aligned && !e.cstyle && e.size <= ((size_t)1 << 22) && !(RZ && !rz_intact(p, e.size))) { s->spare.push_back(State::Spare{e.size, p}); return; }
     }
 #else
     if (s->run_active) s->freed.insert(p);
